@@ -36,9 +36,6 @@ import MayVerif.Model.Chan.Base
 namespace MayVerif.Chan.Mpsc
 open MayVerif.Chan
 
-notation "Tid" => Nat
-notation "Bid" => Nat
-
 /-- where `try_recv` is running: as the API, as recv_timeout's optimistic first try, inside `recv` after the
     registration of blocker `b`, inside `recv` after the park -/
 inductive Ctx | api | pre | reg (b : Bid) (timed : Bool) | post (timed : Bool)
